@@ -32,7 +32,7 @@ from fv.runner import Group
 
 SNAP_H = "include/fastscapelib/flow/flow_snapshot.hpp"
 
-# (name, C type, kind)   kind: rec = gsize x {SRC_W|DST_W}, don = gsize x DON_W, n = gsize, lev = dynamic (<= gsize + 1)
+# (name, C type, kind)   kind: rec = gsize x {SRC_W|DST_W}, don = gsize x DON_W, n = gsize, lev = dynamic (<= gsize + 1), nb = gsize bytes, one = 1 byte
 TABLES = [
     ("receivers", "size_t", "rec"),
     ("receivers_count", "size_t", "n"),
@@ -43,12 +43,18 @@ TABLES = [
     ("dfs_indices", "size_t", "n"),
     ("bfs_indices", "size_t", "n"),
     ("bfs_levels", "size_t", "lev"),
+    # inputs of the observers basins() / pits() / apply_kernel() (C16: "... accumulation, basins, kernel application"): the mask (xt::xarray<bool>,
+    # one cell per node; meaningful when mask_initialized), its flag (a one-cell table), and the base-level set (std::unordered_set<size_type>
+    # modelled by its characteristic function, one cell per node: copy-assignment of a set copies the characteristic function)
+    ("mask", "_Bool", "nb"),
+    ("mask_initialized", "_Bool", "one"),
+    ("base_levels", "_Bool", "nb"),
 ]
 NAMES = "|".join(t[0] for t in TABLES)
 
 
 def _w(side, kind):
-    return {"rec": "SRC_W" if side == "src" else "DST_W", "don": "DON_W", "n": "1", "lev": "1"}[kind]
+    return {"rec": "SRC_W" if side == "src" else "DST_W", "don": "DON_W", "n": "1", "lev": "1", "nb": "1", "one": "1"}[kind]
 
 
 def table_macros():
@@ -62,6 +68,9 @@ def table_macros():
             if kind == "lev":
                 out.append("#define LEN_%s (*%s_n)" % (x, x))
                 out.append("#define SETLEN_%s(n) (*%s_n = (n))" % (x, x))
+            elif kind == "one":
+                out.append("#define LEN_%s ((size_t) 1)" % x)
+                out.append("#define SETLEN_%s(n) ((void) 0)" % x)
             else:
                 out.append("#define LEN_%s (gsize * %s)" % (x, _w(side, kind)))
                 out.append('#define SETLEN_%s(n) FSL_CHECK((n) == LEN_%s, "container model: whole-array assignment between equal shapes (xtensor would resize the destination)")' % (x, x))
@@ -101,6 +110,15 @@ static inline void fsl_assign_all_d(double *dst, const double *src, size_t n)
         __CPROVER_decreases(n - k)
     { dst[k] = src[k]; }
 }
+static inline void fsl_assign_all_b(_Bool *dst, const _Bool *src, size_t n)
+{
+    for (size_t k = 0; k < n; ++k)
+        __CPROVER_assigns(k, __CPROVER_object_whole(dst))
+        __CPROVER_loop_invariant(k <= n)
+        __CPROVER_loop_invariant(AG < k ==> dst[AG] == src[AG])
+        __CPROVER_decreases(n - k)
+    { dst[k] = src[k]; }
+}
 /* column 0 of a (nrows x dst_w) table := column 0 of a (nrows x src_w) table: element (i,0) -> (i,0) */
 static inline void fsl_assign_col0_z(size_t *dst, size_t dst_w, const size_t *src, size_t src_w, size_t nrows)
 {
@@ -126,7 +144,7 @@ static inline void fsl_assign_col0_d(double *dst, size_t dst_w, const double *sr
 #define FSL_NOT_FOCUS(d) FSL_CHECK(ISSNAP_##d, "C16 save.no_alias: the target of an assignment is a table of the snapshot, never of the source")
 #define FSL_ASSIGN_ALL(d, s) do { if (FOC_##d) { \
     FSL_CHECK(W_##d == W_##s, "container model: whole-array assignment between equal shapes (xtensor would resize the destination)"); \
-    _Generic((d), size_t *: fsl_assign_all_z, double *: fsl_assign_all_d)((d), (s), LEN_##s); \
+    _Generic((d), size_t *: fsl_assign_all_z, double *: fsl_assign_all_d, _Bool *: fsl_assign_all_b)((d), (s), LEN_##s); \
     SETLEN_##d(LEN_##s); } else { FSL_NOT_FOCUS(d); } } while (0)
 #define FSL_ASSIGN_COL0(d, s) do { if (FOC_##d) { \
     _Generic((d), size_t *: fsl_assign_col0_z, double *: fsl_assign_col0_d)((d), W_##d, (s), W_##s, gsize); \
@@ -198,6 +216,10 @@ def _fresh(focus=None):
                 out.append("__CPROVER_requires(__CPROVER_is_fresh(%s, gsize * %s))" % (x, BYTES[kind][side]))
             elif kind == "n":
                 out.append("__CPROVER_requires(__CPROVER_is_fresh(%s, gsize * 8))" % x)
+            elif kind == "nb":
+                out.append("__CPROVER_requires(__CPROVER_is_fresh(%s, gsize * sizeof(_Bool)))" % x)
+            elif kind == "one":
+                out.append("__CPROVER_requires(__CPROVER_is_fresh(%s, sizeof(_Bool)))" % x)
             else:
                 out.append("__CPROVER_requires(__CPROVER_is_fresh(%s, gsize * 8 + 8))" % x)
                 out.append("__CPROVER_requires(__CPROVER_is_fresh(%s_n, 8))" % x)
@@ -225,8 +247,10 @@ def _eq(ty, a, b):
 def covers(name, ty, kind):
     """snapshot table == source table at the ghost cell (from the property: every table an observer reads)"""
     s, d = "src_" + name, "snap_" + name
-    if kind == "n":
+    if kind in ("n", "nb"):
         return "(AG < gsize ==> %s)" % _eq(ty, d + "[AG]", s + "[AG]")
+    if kind == "one":
+        return "(AG < 1 ==> %s)" % _eq(ty, d + "[AG]", s + "[AG]")   # a one-cell table: the ghost cell is cell 0
     if kind == "don":
         return "(AG < gsize * DON_W ==> %s)" % _eq(ty, d + "[AG]", s + "[AG]")
     if kind == "lev":
@@ -238,6 +262,8 @@ def covers(name, ty, kind):
 
 def unchanged(name, ty, kind):
     d = "snap_" + name
+    if kind == "one":
+        return _eq(ty, d + "[0]", "__CPROVER_old(%s[0])" % d)
     if kind == "lev":
         return "(*%s_n == __CPROVER_old(*%s_n) && %s)" % (d, d, _eq(ty, d + "[AGC]", "__CPROVER_old(%s[AGC])" % d))
     return _eq(ty, d + "[AGC]", "__CPROVER_old(%s[AGC])" % d)
@@ -408,6 +434,8 @@ WHAT = {
     "receivers": "receivers", "receivers_count": "receivers_count", "receivers_distance": "receivers_distance",
     "receivers_weight": "receivers_weight", "donors": "donors (all columns)", "donors_count": "donors_count",
     "dfs_indices": "dfs_indices (bottom-up order)", "bfs_indices": "bfs_indices", "bfs_levels": "bfs_levels including its length",
+    "mask": "mask (input of basins() / kernels on the snapshot graph)", "mask_initialized": "mask_initialized (the flag that makes the mask effective)",
+    "base_levels": "base_levels (the set, as its characteristic function; input of pits())",
 }
 
 
@@ -475,10 +503,10 @@ PROPS = {
             "get_snapshot(...) = map.at(snapshot_name()) are glue); the operator's save_graph()/save_elevation() are its stored flags",
             "receiver widths instantiated at (1,1), (8,1), (8,8) and donors width 9: widths only enter the proof as constants of "
             "linear index arithmetic",
+            "the base-level set (std::unordered_set<size_type>) is modelled by its characteristic function over the nodes and its copy-assignment as the "
+            "element-wise copy of that function; the mask flag m_mask_initialized is a one-cell table; xt::xarray<bool> mask = one _Bool per node",
         ],
         undecided=[
-            "mask and base levels of a snapshot graph (used by its basins()) are not written by _save: a snapshot graph keeps the "
-            "default-constructed ones (not decided here; reading note)",
             "equivalence of accumulate()/basins()/apply_kernel() on the snapshot with a graph running only the prefix, beyond equality "
             "of the tables they read (composition with C03/C19 contracts, not mechanised)",
         ],
